@@ -89,7 +89,8 @@ def cases(tier, seed):
                     idx += 1
     # variable bounds handed over as integer-typed arrays
     for vk in (["intbox", "intbox"], ["intbox"]):
-        for rows in ([], [("affine", "ranged")], [("sphere", "upper"), ("affine", "eqoff")]):
+        for rows in ([], [("affine", "ranged")], [("sphere", "upper"), ("affine", "eqoff")], [("affine", "introw")], [("sphere", "inteq"), ("affine", "introw")],
+                     [("affine", "inteq")]):
             if len(vk) == 1:
                 rows = [(("sphere" if f == "sphere" else "affine"), k) for f, k in rows]
             for si in range(7):
